@@ -37,8 +37,36 @@ _LEADING_WHITESPACE = re.compile(r'\s*')
 
 
 def _unfold_continuations(code_string):
-  """Removes any backslash line continuations from the code."""
-  return code_string.replace('\\\n', '')
+  """Removes the backslash line continuations that join lines of code.
+
+  A backslash-newline inside a string literal or at the end of a comment does
+  not continue a logical line and is left alone.
+  """
+  if '\\\n' not in code_string:
+    return code_string
+
+  # Rows (1-based) whose line break belongs to a string literal or a comment.
+  protected = set()
+  try:
+    for tok in tokenize.generate_tokens(io.StringIO(code_string).readline):
+      if tok.type == tokenize.COMMENT:
+        protected.add(tok.start[0])
+      elif tok.end[0] > tok.start[0]:
+        protected.update(range(tok.start[0], tok.end[0]))
+  except (tokenize.TokenError, IndentationError):
+    # Incomplete code (e.g. lambda fragments): remaining rows are unfolded.
+    pass
+
+  lines = code_string.split('\n')
+  unfolded = []
+  for row, line in enumerate(lines, 1):
+    if row < len(lines) and line.endswith('\\') and row not in protected:
+      unfolded.append(line[:-1])
+    elif row < len(lines):
+      unfolded.append(line + '\n')
+    else:
+      unfolded.append(line)
+  return ''.join(unfolded)
 
 
 def dedent_block(code_string):
